@@ -188,7 +188,7 @@ def model_of(prog: dict) -> dict:
             if not all(isinstance(v, pt.Array) for v in outs.values()):
                 res["status"] = "non_array_output"
                 return res
-        bp = cexec.generate(outs)
+        bp = cexec.generate(outs, qa_shim=bool(prog.get("qa")))
     except Exception as ex:      # noqa: BLE001
         res["status"] = "generation_failed:" + type(ex).__name__   # C01's business
         return res
@@ -224,6 +224,11 @@ def main(tier: str, only: list[dict] | None = None) -> int:
         n = 250 if tier == "quick" else 3000
         for k in range(n):
             progs.append(progspace.random_program(rng, f"r{k}", int(rng.integers(1, 8))))
+    if only is None:
+        # the same programs with reductions INLINED (cexec qa_shim): other subscripts
+        from checks import c01
+        progs += [{**p, "id": p["id"] + "|qa", "qa": True} for p in progs
+                  if "build" in p or any(c["op"] in c01.REDUCING for c in p["calls"])]
     k = NCPU * 4
     with mp.Pool(NCPU) as pool:
         results = [r for chunk in pool.map(_model_many,
